@@ -120,6 +120,22 @@ func (h *H) eval(s []byte, origin string) {
 	c.Tag(origin)
 	c.Tag("kM:" + className[kM])
 	c.Tag("kS:" + className[kS])
+	{ // coverage of the identifier de-duplication space
+		exact, folded, n := map[string]bool{}, map[string]bool{}, 0
+		for _, x := range ms {
+			if x.kind == 'i' {
+				n++
+				exact[string(x.b)] = true
+				folded[strings.ToLower(string(x.b))] = true
+			}
+		}
+		if n > len(exact) {
+			c.Tag("idents:repeated-identical")
+		}
+		if len(folded) < len(exact) {
+			c.Tag("idents:case-variants")
+		}
+	}
 	if strings.HasPrefix(out, "panic:") {
 		c.Fail("panic", out, q(s))
 		return
@@ -133,6 +149,23 @@ func (h *H) eval(s []byte, origin string) {
 	// ---- monitor 1: round trip
 	if um != str {
 		key := "roundtrip:" + className[kP]
+		// distinct quoted identifiers must keep distinct placeholders: fewer identifier masks than
+		// distinct identifier texts means the de-duplication key is not the identifier text itself.
+		distinct := map[string]bool{}
+		for _, x := range ms {
+			if x.kind == 'i' {
+				distinct[string(x.b)] = true
+			}
+		}
+		nIdent := 0
+		for _, m := range masks {
+			if m.Identifier {
+				nIdent++
+			}
+		}
+		if nIdent < len(distinct) {
+			key = "roundtrip:ident-case-collapsed"
+		}
 		c.Fail(key, fmt.Sprintf("UnmaskStringLiterals(MaskStringLiterals(s)) != s: got %s (masked %s)", q([]byte(um)), q([]byte(masked))), q(s))
 		c.Tag("FAIL " + key)
 	}
@@ -275,6 +308,10 @@ var edge = []string{
 	"SELECT 1 AS a$$x$, 2 AS y", "SELECT 1 AS éE'a' , 2 AS y", "SELECT 1$$a$$", "SELECT $é$a$é$ AS x", "SELECT 1e'a' AS x",
 	"SELECT 1 -- c\r, 2 AS j", "SELECT 1 /* a /* b */ AS x, 2 AS y */", "SELECT 1 /* a */b", "SELECT 1 /* a */ b", "SELECT (1 /*c*/)",
 	"__STR_0__ 'a'", "__STR_0'a'", "\"x\" 'a'IDENT_0__", "'a'STR_2'b' 'c'", "\"x\" 'a'IDENT_0'b'", "'a' __STR_0__", "\"a\" \"a\" \"b\" \"a\"",
+	// repeated quoted identifiers: identical ones share a placeholder, case variants must not
+	"SELECT \"Host\" AS \"host\"", "SELECT \"host\", \"host\", \"Host\", \"HOST\" FROM \"T\" JOIN \"t\"",
+	"WITH \"x-Y\" AS (SELECT 1) SELECT * FROM \"x-y\", \"x-Y\"", "SELECT \"é\", \"É\", \"é\"", "SELECT \"ñandú\" AS \"ÑANDÚ\"",
+	"\"a\"\"B\" \"A\"\"b\" \"a\"\"B\"", "\"K\" \"K\" \"k\"", "\"ſ\" \"s\" \"S\"",
 	"SELECT * FROM \"my--db\"", "SELECT '--x' /* 'y' */", "$$a'b$$", "$t$a$$b$t$", "$$unterminated", "'unterminated", "/* unterminated", "/*/", "/**/", "/**/x", "/**/xy",
 	"a$1", "$1", "$$$", "$a$ $A$ $a$", "x'41\\' , 2", "N'a'", "'a'\n'b'", "--", "-- x", "--\n", "/*", "*/", "/* */ */",
 	"SELECT EXTRACT(YEAR FROM t) FROM \"a b\" WHERE x = 'it''s' -- done", "'\\''", "E'\\''", "E'\\'' x", "'\\\\'", "\"\\\"\"",
